@@ -303,3 +303,10 @@ def x21(cx: Cx, ob: Ob) -> None:
 
     check_split(cx, ob)
     check_parse_curie_delimiter(cx, ob)
+
+
+@obligation("C07-X1", "OWN (shared with C10): no function keeps the Record objects of a converter it was given inside another converter - a later merge there adds names to the records of the first converter that its lookup tables do not know, and is_curie / expand / parse then deny a prefix the converter lists", floor=6)
+def x1(cx: Cx, ob: Ob) -> None:
+    from .c10 import check_no_aliasing
+
+    check_no_aliasing(cx, ob)
